@@ -7,4 +7,7 @@
             known_exception(*self, *other) || r == shared(*self, *other), // @conflict_iff_shared_version
 //@ body_start
         broadcast use vle_total, vle_antisym, vle_trans;
-        proof { overlap_closed_form(*self, *other); }
+        proof {
+            overlap_closed_form(*self, *other);
+            if *self is Until && *other is Until && !empty_until(*self) && !empty_until(*other) { until_until_share(*self, *other); }
+        }
